@@ -218,3 +218,165 @@ func runWrappers() {
 	r.Set("wrapper_families", fmt.Sprintf("%d programs: control-call, static, static-nested-call, static-nested-delegatecall, reverting-/failing-{call,callcode,delegatecall}, "+
 		"nested-revert, nested-fail, top-revert, top-fail, reverting-create, recursion-1024 (each x 10 state-changing actions), stack/*, loop/*", len(ws)))
 }
+
+// ---------------------------------------------------------------------------------------------
+// family frames: every "frame shape". From the top frame a chain of n <= 3 frames is entered by
+// k_1..k_n in {STATICCALL, CALL, DELEGATECALL, CALLCODE}; the innermost frame performs the state-changing
+// action. At most one frame of the chain (position 0 = top frame .. n = the action frame) first performs a
+// read-only SIBLING call and lets it return before it proceeds: sibling kind in the same four, target in
+// {trivial, storage-reading, one that itself makes a nested STATICCALL}, outcome in {returns, reverts, fails}.
+//
+// Absolute oracle: the action is write-protected iff some k_i is STATICCALL (the flag is inherited by every
+// descendant and is NOT lifted by anything a sibling does): then the top frame returns word 0 and no state
+// changed; otherwise the action takes effect (word 1, state changed). Plus the differential oracle.
+
+var (
+	addrF       = [3]addr20{mkAddr("f4a30001"), mkAddr("f4a30002"), mkAddr("f4a30003")}
+	addrSib     [3][3]addr20 // [target][outcome]
+	addrSibLeaf = mkAddr("51b100ff")
+)
+
+var callKinds = []string{"STATICCALL", "CALL", "DELEGATECALL", "CALLCODE"}
+var sibTargets = []string{"trivial", "storage", "nested"}
+var sibOutcomes = []string{"returns", "reverts", "fails"}
+
+type frameSpec struct {
+	n       int8
+	kinds   [3]int8
+	sibPos  int8 // -1: no sibling
+	sibKind int8
+	sibTgt  int8
+	sibOut  int8
+	action  int8
+}
+
+func sibAccount(tgt, out int) account {
+	var body []byte
+	switch tgt {
+	case 0:
+	case 1:
+		body = asm("PUSH1 00", "SLOAD", "PUSH1 00", "MSTORE", "PUSH1 01", "SLOAD", "POP")
+	case 2:
+		body = cat(callTo("STATICCALL", addrSibLeaf, 5000, 0, 0), asm("POP"))
+	}
+	var end []byte
+	switch out {
+	case 0:
+		end = asm("PUSH1 20", "PUSH1 00", "RETURN")
+	case 1:
+		end = asm("PUSH1 20", "PUSH1 00", "REVERT")
+	case 2:
+		end = asm("INVALID")
+	}
+	ac := account{addr: addrSib[tgt][out], code: cat(body, end), balance: 10}
+	if tgt == 1 {
+		ac.storage = [][2]word32{{wordOfU64(0), wordOfHex("51b1")}, {wordOfU64(1), wordOfU64(7)}}
+	}
+	return ac
+}
+
+func buildFrameSpecs(nActions int) []frameSpec {
+	for t := 0; t < 3; t++ {
+		for o := 0; o < 3; o++ {
+			addrSib[t][o] = mkAddr(fmt.Sprintf("51b1%02x%02x", t+1, o+1))
+		}
+	}
+	var out []frameSpec
+	for n := 1; n <= 3; n++ {
+		total := 1
+		for i := 0; i < n; i++ {
+			total *= 4
+		}
+		for x := 0; x < total; x++ {
+			var ks [3]int8
+			y := x
+			for i := 0; i < n; i++ {
+				ks[i] = int8(y % 4)
+				y /= 4
+			}
+			for a := 0; a < nActions; a++ {
+				out = append(out, frameSpec{n: int8(n), kinds: ks, sibPos: -1, action: int8(a)})
+				for pos := 0; pos <= n; pos++ {
+					for sk := 0; sk < 4; sk++ {
+						for st := 0; st < 3; st++ {
+							for so := 0; so < 3; so++ {
+								out = append(out, frameSpec{n: int8(n), kinds: ks, sibPos: int8(pos), sibKind: int8(sk), sibTgt: int8(st), sibOut: int8(so), action: int8(a)})
+							}
+						}
+					}
+				}
+			}
+		}
+	}
+	return out
+}
+
+func frameProg(fs frameSpec, acts []action) wrapperProg {
+	a := acts[fs.action]
+	n := int(fs.n)
+	gasFor := []uint64{2000000, 1000000, 400000}
+	var extra []account
+	frameCode := func(i int) []byte {
+		var c []byte
+		if int(fs.sibPos) == i {
+			c = cat(c, callTo(callKinds[fs.sibKind], addrSib[fs.sibTgt][fs.sibOut], 30000, 0x40, 0x20), asm("POP"))
+		}
+		if i < n {
+			c = cat(c, callTo(callKinds[fs.kinds[i]], addrF[i], gasFor[i], 0, 0x20), asm("POP", "PUSH1 20", "PUSH1 00", "RETURN"))
+		} else {
+			c = cat(c, a.code, asm("PUSH1 01", "PUSH1 00", "MSTORE", "PUSH1 20", "PUSH1 00", "RETURN"))
+		}
+		return c
+	}
+	for i := 1; i <= n; i++ {
+		extra = append(extra, account{addr: addrF[i-1], code: frameCode(i), balance: 10})
+	}
+	static := false
+	var ks []string
+	for i := 0; i < n; i++ {
+		ks = append(ks, callKinds[fs.kinds[i]])
+		if fs.kinds[i] == 0 {
+			static = true
+		}
+	}
+	kind := "frames-nosibling"
+	sib := "no sibling"
+	if fs.sibPos >= 0 {
+		extra = append(extra, sibAccount(int(fs.sibTgt), int(fs.sibOut)))
+		if fs.sibTgt == 2 {
+			extra = append(extra, account{addr: addrSibLeaf, code: asm("STOP"), balance: 10})
+		}
+		kind = "frames-sibling-" + strings.ToLower(callKinds[fs.sibKind])
+		sib = fmt.Sprintf("frame %d first %ss a %s contract that %s", fs.sibPos, callKinds[fs.sibKind], sibTargets[fs.sibTgt], sibOutcomes[fs.sibOut])
+	}
+	name := fmt.Sprintf("%s/top>%s: %s; then %s in the innermost frame", kind, strings.Join(ks, ">"), sib, a.name)
+	one := "0000000000000000000000000000000000000000000000000000000000000001"
+	var exp []string
+	if static {
+		exp = []string{"status=success", "ret32[0]=0", "nochange"}
+	} else {
+		exp = []string{"status=success", "changed"}
+		if a.name != "SELFDESTRUCT" {
+			exp = append(exp, "ret32[0]="+one)
+		}
+	}
+	return mkWrapper(name, frameCode(0), extra, 3000000, nil, 200000, exp...)
+}
+
+func runFrames() {
+	acts := actions()
+	specs := buildFrameSpecs(len(acts))
+	done := par.For(int64(len(specs)), 32, r.Expired, func(i int64) {
+		c := getCtx()
+		defer putCtx(c)
+		w := frameProg(specs[i], acts)
+		atomic.AddInt64(&nPrograms, 1)
+		if runProgram(c, w.p, func(iset int, f finding) (string, *prog) { return classFor(c, w.p, iset, f, w.class), nil }) {
+			atomic.AddInt64(&nDistinctNontrivial, 1)
+		}
+	})
+	r.Add("frame_shape_programs", done)
+	if done < int64(len(specs)) {
+		r.NotExhaustive(fmt.Sprintf("deadline: frame shapes completed %d of %d", done, len(specs)))
+	}
+}
